@@ -128,6 +128,16 @@ def jobs(tier):
         out.append({"program": prog(3, [fixed("a", 1), new("ConcurrentBuffer", "b0", name="b0", initial_level=1), new(cls, "bf", name="bf", **kw),
                                         con("TaskLoadBuffer", "l0", task=R("a"), buffer=R("b0"), quantity=1)]),
                     "families": FAM, "family": f"{cls}/untouched+used", "directions": "SK", "post": "buffers"})
+    # bounds assigned after the buffer and its accesses were declared: the values at solve time count
+    for cls in ("NonConcurrentBuffer", "ConcurrentBuffer"):
+        for attr, v0, v1 in (("upper_bound", None, 2), ("upper_bound", 5, 1), ("lower_bound", None, 1), ("lower_bound", 0, 2)):
+            kw = {"initial_level": 1}
+            if v0 is not None:
+                kw[attr] = v0
+            out.append({"program": prog(4, [fixed("a", 1), fixed("b", 1), new(cls, "bf", name="bf", **kw),
+                                            con("TaskLoadBuffer", "l0", task=R("a"), buffer=R("bf"), quantity=2),
+                                            con("TaskUnloadBuffer", "u1", task=R("b"), buffer=R("bf"), quantity=1), dsl.setattr_("bf", attr, v1)]),
+                        "families": FAM, "family": f"{cls}/bound-assigned-later", "directions": "SK", "post": "buffers"})
     # optional accessor (S/K only; report check skips unscheduled accessors)
     for cls in ("NonConcurrentBuffer", "ConcurrentBuffer"):
         out.append({"program": prog(4, [fixed("a", 1, optional=True), fixed("b", 1), new(cls, "bf", name="bf", initial_level=1, lower_bound=0),
